@@ -624,6 +624,30 @@ pub fn run_c03(ctx: &Ctx) -> i32 {
                 Err(e) => report_obs_err(ctx, "variants", idx, &case, &e, out),
             }
         }
+        // and delivered by a source that chains inner sources: every second or third read first
+        // hands over an empty block (the inner source that just ended), then the data
+        for mt in [false, true] {
+            case.cfg.multithread = mt;
+            case.mode = if idx % 2 == 0 { FillMode::Int } else { FillMode::Bytes };
+            case.hint = false;
+            let Ok(v) = enc::verified(&case.cfg) else { continue };
+            let mut src = TestSource::new(Arc::clone(&case.audio), case.mode, false);
+            src.empty_fill_every = 2 + (idx % 2) as usize;
+            match enc::encode_stream(&v, &mut src, case.block) {
+                Ok(stream) => match enc::to_bytes(&stream) {
+                    Ok(bytes) => {
+                        let rep = refdec::decode_stream(&bytes);
+                        let obs = Observed { stream, bytes, rep, delivered: src.delivered, reads: src.reads };
+                        out.evaluations += 1;
+                        out.count("variants_chained_source");
+                        oracle_c03(ctx, "variants", idx, &case, &obs, out);
+                        infos.push((obs.rep.info.md5, obs.rep.info.total, mt, case.mode));
+                    }
+                    Err(e) => report_obs_err(ctx, "variants", idx, &case, &ObsErr::Ser(e, stream_placeholder()), out),
+                },
+                Err(e) => report_obs_err(ctx, "variants", idx, &case, &ObsErr::Enc(e), out),
+            }
+        }
         if infos.windows(2).any(|w| w[0].0 != w[1].0 || w[0].1 != w[1].1) {
             out.violation("C03|variants-differ", format!("MD5/total differ between delivery variants: {infos:?}"), json!({"monitor": "C03", "sub": "variants", "index": idx, "seed": ctx.seed, "tier": ctx.tier.name(), "case": case.describe()}));
         }
